@@ -49,6 +49,9 @@ func (g *gen) knownHash() [32]byte {
 	return g.h.blocks[g.r.Intn(len(g.h.blocks))].Hash
 }
 func (g *gen) someHash() [32]byte {
+	if len(g.h.staleFork) > 0 && g.r.Intn(9) == 0 {
+		return g.h.staleFork[g.r.Intn(len(g.h.staleFork))]
+	}
 	switch g.r.Intn(6) {
 	case 0:
 		var x [32]byte
